@@ -123,6 +123,8 @@ def malformed_variants():
     out.append(("M4e-node-value-node-misspelt", "warns", m, dict(node_values={"px/rate/tau": 3.0})))
     m9 = json.loads(json.dumps(m))
     m9["ops"]["rate"]["vars"]["tau"] = ["output", 2.0]
+    for bname in ("Fortran", "tensorflow", "JAX", "numpy2"):
+        out.append((f"M14-unknown-backend-name-{bname}", "raises", m, dict(backend=bname)))
     out.append(("M9-two-outputs-in-one-operator", "raises", m9, {}))
     # cyclic operator graph inside a node
     c1 = gen.op_alg("ca", out="ua", src="ub", fn="tanh")
@@ -150,6 +152,8 @@ def malformed_case(c):
                 kw["inputs"] = opts["inputs"]
             if "node_values" in opts:
                 kw["node_values"] = opts["node_values"]
+            if "backend" in opts:
+                kw["backend"] = opts["backend"]
             tpl.run(**kw)
             caught = [str(x.message)[:100] for x in w if "pyrates" in str(x.filename).lower() or "PyRates" in type(x.message).__name__]
     except Exception as exn:
